@@ -406,6 +406,23 @@ func rulesC04(c *Ctx) {
 			}
 		}
 		c.Pin("fail sites behind a response read error", n, 2)
+		// the synchronous twin: Write fails the connection over a bad response only while the caller is still there (the
+		// error body that checkResponse classifies is read under the call's context)
+		wr := c.Fn(pM, "streamableClientConn", "Write")
+		wg := wr.Graph()
+		wctx := wr.CtxParam()
+		crv := wg.callVertices(c.FnObj(pM, "streamableClientConn", "checkResponse"))
+		c.Need(len(crv) >= 1 && wctx != nil, "Write: checkResponse call and context")
+		m := 0
+		for _, fv := range wg.callVertices(failObj) {
+			if !wg.ReachableFrom(crv[0])[fv] {
+				continue
+			}
+			m++
+			guards := wg.GuardsAt(fv)
+			c.Check(hasAtom(guards, func(a Atom) bool { return ctxAliveAtom(wr, a, wctx) }), "Write:fail-after-checkResponse-only-if-ctx-alive#"+itoa(m), wr, wg.Node(fv), "c.fail after checkResponse is reached only under ctx.Err() == nil (guards: %s)", atomsString(guards))
+		}
+		c.Pin("fail sites after checkResponse in Write", m, 1)
 	})
 
 	c.Rule("R-C04-9", "one call's fate does not leak into another's: no HTTP round trip is made while a transport mutex is held (a POST the peer does not answer would otherwise block every other Write, Read and Close of that client), and the long-lived subscriptions/listen requests opened by Subscribe and by Connect live on a context of their own, not on the context of the call that opened them", func() {
